@@ -33,6 +33,10 @@ var SecretOps = []string{
 // PublicOps operate on public data only (variable time allowed).
 var PublicOps = []string{"doublemult.vartime", "multimult.vartime", "verify", "schnorr.verify", "h2c", "uniform"}
 
+// FaultOps are calls that cannot complete (see the op-server's "faulted"); only the cross-build comparison uses
+// them.
+var FaultOps = []string{"faulted"}
+
 var nibbleFills = []byte{0x00, 0xff, 0x0f, 0xf0, 0x11, 0x88}
 
 // SecretScalar draws a secret in [1,n) from the patterns the property names:
@@ -178,6 +182,8 @@ func Draw(t *rapid.T, op string, label string) Request {
 			sig[40] ^= 1
 		}
 		r.Args = [][]byte{ref.B32(ref.BaseMul(d).X), msg, sig}
+	case "faulted":
+		r.Args = [][]byte{{byte(rapid.IntRange(0, 7).Draw(t, label+"_kind"))}, {byte(rapid.IntRange(0, 2).Draw(t, label+"_where"))}, scalar("_s"), pointEnc(t, label+"_P")}
 	case "h2c":
 		r.Args = [][]byte{{byte(rapid.IntRange(0, 1).Draw(t, label+"_ro"))}, gen.Bytes(t, 1, 300, label+"_dst"), gen.Message(t, label+"_msg")}
 	case "uniform":
